@@ -85,7 +85,13 @@ func runTVDriver(c *Ctx, rule string) {
 		}
 		// NewParquetReader: fieldNames = names of Fields(...) in order (append inside a loop over the Fields() result)
 		appendOK := false
-		for _, b := range ctor.Blocks {
+		var ctorBlocks []*ssa.BasicBlock
+		for _, g := range unitFns(u, ctor) {
+			if g.Name() != "readRowGroup" {
+				ctorBlocks = append(ctorBlocks, g.Blocks...)
+			}
+		}
+		for _, b := range ctorBlocks {
 			for _, ins := range b.Instrs {
 				st, ok := ins.(*ssa.Store)
 				if !ok || fieldOf(st.Addr) != names {
